@@ -71,6 +71,7 @@ type Op struct {
 	N    int     // EdgeQuery MaxResults (0 = unlimited)
 	I    bool    // EdgeQuery IncludeInteriors
 	E    bool    // edge target (P,Q) instead of point target P
+	T    int     // EdgeQuery target, when not 0: 1 = cell target (Cell), 2 = a private one-polyline index (P,Q) as target
 	D    float64 // IsDistanceLess limit (chord angle)
 }
 
@@ -200,6 +201,13 @@ func genOp(t *rapid.T, c *Case, verts []gen.P, scale float64) Op {
 		o.N = rapid.SampledFrom([]int{1, 1, 2, 5, 0}).Draw(t, "maxresults")
 		if o.K == "ed" || o.K == "fd" || o.K == "el" {
 			o.N = 1
+		}
+		switch rapid.IntRange(0, 5).Draw(t, "tkind") {
+		case 0:
+			o.T, o.E = 1, false
+			o.Cell = drawCell(t, "tcell", o.P.Pt(), scale)
+		case 1, 2:
+			o.T, o.E = 2, true // an index of the goroutine's own as target (needs a proper edge, like E)
 		}
 		if o.K == "el" {
 			f := math.Exp(rapid.Float64Range(math.Log(0.01), math.Log(10)).Draw(t, "limf"))
